@@ -27,7 +27,7 @@ func propC11(a *Analysis, r *Registry) {
 		env := X.EnvFor(fn, "n", "q", "c")
 		b.guard(rB, name+"/c>=1", func() {
 			fc := X.Under(fn, X.AssumeCond(env.MustParse("1<=c"), true))
-			b.Eq(rB, name+"/c>=1", b.pos(fn), fc.Sub(fc.RetVal(0)), env, "QuantileCIResult(q, n, 1, 0, n+1, false)")
+			b.EqUnder(rB, name+"/c>=1", b.pos(fn), fc, fc.RetVal(0), env, "QuantileCIResult(q, n, 1, 0, n+1, false)")
 		})
 		// final return on the other paths
 		b.guard(rB, name+"/clamps", func() {
@@ -42,22 +42,18 @@ func propC11(a *Analysis, r *Registry) {
 				idx        int
 				field, low string
 			}{{3, "LoOrder", "lo"}, {4, "HiOrder", "hi"}} {
-				at := rv.Args[cl.idx].SingleAtom()
-				if at == nil || at.Name != "ite" {
-					r.Fail("D-bound clamp", name+"/"+cl.field, b.pos(fn), cl.field+" is not clamped: "+clip(rv.Args[cl.idx].String(), 200))
-					continue
-				}
-				c := at.Args[0].SingleAtom()
-				if c == nil || !isCmpName(c.Name) {
-					r.Fail("D-bound clamp", name+"/"+cl.field, b.pos(fn), "clamp condition not a comparison")
-					continue
-				}
 				e2 := X.EnvFor(fn, "n", "q", "c")
+				bound := map[string]string{"LoOrder": "0", "HiOrder": "n+1"}[cl.field]
+				inner := clampInner(rv.Args[cl.idx], e2.MustParse(bound))
+				if inner == nil {
+					r.Fail("D-bound clamp", name+"/"+cl.field, b.pos(fn), cl.field+" is not clamped at "+bound+": "+clip(rv.Args[cl.idx].String(), 200))
+					continue
+				}
 				if cl.field == "LoOrder" {
-					e2.Set("L", c.Args[0], nil)
+					e2.Set("L", inner, nil)
 					b.Eq("D-bound clamp", name+"/LoOrder", b.pos(fn), rv.Args[cl.idx], e2, "ite(L<0, 0, L)")
 				} else {
-					e2.Set("R", c.Args[1], nil)
+					e2.Set("R", inner, nil)
 					b.Eq("D-bound clamp", name+"/HiOrder", b.pos(fn), rv.Args[cl.idx], e2, "ite(n+1<R, n+1, R)")
 				}
 			}
@@ -96,47 +92,35 @@ func propC11(a *Analysis, r *Registry) {
 				env.Set(k, v, nil)
 			}
 			b.EqRF(rB, name+"/exact/Confidence", b.pos(fn), conf, vars["accum"], "Confidence is the accumulated mass")
-			hdr := X.phiOf[vars["accum"].SingleAtom().ID].Block()
+			aat := vars["accum"].SingleAtom()
+			hdr, lfc := X.phiOf[aat.ID].Block(), X.phiFC[aat.ID] // the loop may live in a helper
 			// loop condition: reach condition of the body from the header
 			var body *ssa.BasicBlock
-			fc.Ctx.Instrs(func(in ssa.Instruction) {
-				if ifi, ok := in.(*ssa.If); ok && fc.Val(ifi.Cond).Equal(env.MustParse(left)) {
-					body = ifi.Block()
+			lfc.Ctx.Instrs(func(in ssa.Instruction) {
+				if ifi, ok := in.(*ssa.If); ok && lfc.Ctx.LoopOf(ifi.Block()) != nil {
+					if c := lfc.Val(ifi.Cond); c.Equal(env.MustParse(left)) || c.Equal(S.Not(env.MustParse(left))) {
+						body = ifi.Block()
+					}
 				}
 			})
 			if body == nil {
 				r.Fail(rB, name+"/exact/left-bias", b.pos(fn), "no branch on lp >= rp (left bias) in the loop")
 			} else {
 				r.OK(rB, name+"/exact/left-bias", b.pos(fn), "the left neighbour is taken when lp >= rp")
-				b.Eq(rB, name+"/exact/loop-condition", b.pos(fn), fc.ReachCondFrom(hdr, body), env, "accum<c && (0<lp || 0<rp)")
+				b.Eq(rB, name+"/exact/loop-condition", b.pos(fn), lfc.ReachCondFrom(hdr, body), env, "accum<c && (0<lp || 0<rp)")
 			}
 			// l, r reach the clamps
-			lo, hi := rv.Args[3].SingleAtom(), rv.Args[4].SingleAtom()
-			if lo != nil && hi != nil && lo.Name == "ite" && hi.Name == "ite" {
-				b.EqRF(rB, name+"/exact/LoOrder-source", b.pos(fn), lo.Args[2], vars["l"], "LoOrder comes from l")
-				b.EqRF(rB, name+"/exact/HiOrder-source", b.pos(fn), hi.Args[2], vars["r"], "HiOrder comes from r")
+			lo, hi := clampInner(rv.Args[3], env.MustParse("0")), clampInner(rv.Args[4], env.MustParse("n+1"))
+			if lo != nil && hi != nil {
+				b.EqRF(rB, name+"/exact/LoOrder-source", b.pos(fn), lo, vars["l"], "LoOrder comes from l")
+				b.EqRF(rB, name+"/exact/HiOrder-source", b.pos(fn), hi, vars["r"], "HiOrder comes from r")
 			}
-			// Ambiguous: stores to the field
-			nst := 0
-			fc.Ctx.Instrs(func(in ssa.Instruction) {
-				st, ok := in.(*ssa.Store)
-				if !ok {
-					return
-				}
-				fa, ok := st.Addr.(*ssa.FieldAddr)
-				if !ok || X.typeName(fa.X.Type()) != "QuantileCIResult" || fa.Field != 5 {
-					return
-				}
-				nst++
-				if fc.Ctx.LoopOf(st.Block()) != nil {
-					b.Eq(rB, name+"/exact/Ambiguous-step", a.W.InstrPos(st), fc.Val(st.Val), env, "lp==rp")
-				} else {
-					b.Eq(rB, name+"/exact/Ambiguous-init", a.W.InstrPos(st), fc.Val(st.Val), env, "samp.PMF(x+1)==samp.PMF(x)")
-				}
+			// Ambiguous: carried by the same loop (a field of the result or a variable of a helper)
+			b.guard(rB, name+"/exact/Ambiguous", func() {
+				ai, an := fc.Recurrence(rv.Args[5])
+				b.Eq(rB, name+"/exact/Ambiguous-init", b.pos(fn), ai, env, "samp.PMF(x+1)==samp.PMF(x)")
+				b.Eq(rB, name+"/exact/Ambiguous-step", b.pos(fn), an, env, "lp==rp")
 			})
-			if nst != 2 {
-				r.Fail(rB, name+"/exact/Ambiguous", b.pos(fn), "expected Ambiguous to be set before the loop and in every step")
-			}
 		})
 		// normal branch
 		b.guard(rB, name+"/normal", func() {
@@ -202,4 +186,20 @@ func propC11(a *Analysis, r *Registry) {
 			b.Eq("C-guard panics", name, b.pos(sf), acc, env, "s.Weights!=nil || len(s.Xs)!=ci.N")
 		})
 	}
+}
+
+// clampInner: v is a two-way gating function one of whose branches is the
+// bound; the other branch (the value being clamped) is returned.
+func clampInner(v, bound *RF) *RF {
+	at := v.SingleAtom()
+	if at == nil || at.Name != "ite" || len(at.Args) != 3 {
+		return nil
+	}
+	switch {
+	case at.Args[1].Equal(bound):
+		return at.Args[2]
+	case at.Args[2].Equal(bound):
+		return at.Args[1]
+	}
+	return nil
 }
